@@ -73,8 +73,10 @@ def gen_prog(rng: Any, depth: int, budget: list[int], in_ctx: bool) -> list[Any]
             break
         budget[0] -= 1
         r = rng.random()
-        if r < 0.25:
+        if r < 0.2:
             steps.append(["check"])
+        elif r < 0.25:
+            steps.append(["lookup_elsewhere", rng.choice(["ok", "raises", "cancelled"])])
         elif r < 0.4:
             steps.append(["yield", rng.randint(1, 3)])
         elif r < 0.45:
@@ -166,6 +168,35 @@ class Interp:
             got = "NoCurrentContext" if cur is None else self.name(cur, stack)
             self.bad(f"current-wrong[{where.split(' ')[0]}]", f"task {tid} {where}: current_context() is {got}, this task's stack says {exp}")
 
+    async def lookup_elsewhere(self, tid: Any, other: Any, how: str) -> None:
+        self.seq += 1
+        T = type(f"Made{self.seq}", (), {})  # noqa: N806
+
+        class FactoryFailed(Exception):
+            pass
+
+        async def factory() -> Any:
+            await checkpoint()
+            if how == "raises":
+                raise FactoryFailed("the factory failed")
+            if how == "cancelled":
+                await anyio.sleep(10)
+            return T()
+
+        try:
+            other.add_resource_factory(factory, f"n{self.seq}", types=[T])
+        except RuntimeError:
+            return  # (the enclosing context is already being torn down: no factories any more)
+        self.inc(f"lookups_on_another_context_{how}")
+        try:
+            with anyio.move_on_after(1.0 if how == "cancelled" else 100):
+                await other.get_resource(T, f"n{self.seq}")
+        except FactoryFailed:
+            pass
+        except Exception as e:
+            if not (type(e).__name__ == "RuntimeError" and other.closed):
+                self.bad("current-raised", f"task {tid}: get_resource() on an enclosing context raised {describe_exc(e)}")
+
     def ctx_class(self) -> Any:
         """Context, or (falsy_contexts) a subclass whose instances are falsy - a container-like context that is empty"""
         from asphalt.core import Context
@@ -192,6 +223,13 @@ class Interp:
             elif kind == "sleep":
                 await anyio.sleep(step[1])
                 self.check(tid, stack, "after-sleep")
+            elif kind == "lookup_elsewhere":
+                # a lookup made on a context that is *not* this task's current one (an enclosing context, reached through a
+                # reference), served by an asynchronous factory that succeeds, fails or is abandoned half-way: whatever the
+                # library does while the factory runs, this task's current context is afterwards what it was before
+                if len(stack) >= 2:
+                    await self.lookup_elsewhere(tid, stack[0], step[1])
+                    self.check(tid, stack, "after-lookup-on-another-context")
             elif kind == "prebuild":
                 self.prebuilt.setdefault(root_tid, []).append((Context(), stack[-1] if stack else None))
                 self.inc("contexts_built_ahead")
